@@ -2307,3 +2307,64 @@ Section Scalars.
     apply (proj1 scalar_all t v Hv). apply Forall_app in Hs. destruct Hs as [_ Hs]. apply Forall_app in Hs. tauto.
   Qed.
 End Scalars.
+
+(* ------------------------------------------------------------------------------------------------ *)
+(* the syntax does not depend on the number oracle: transfer of derivations between two oracles that accept the same
+   literals; with the trivial oracle (F := unit) the relation is the pure RFC 8259 syntax *)
+
+Definition fp_unit : str -> option unit := fun _ => Some tt.
+
+Section Transfer.
+  Variable F1 F2 : Type.
+  Variable fp1 : str -> option F1.
+  Variable fp2 : str -> option F2.
+  Variable lone : bool.
+  Hypothesis accepts : forall l x, JNumber l -> fp1 l = Some x -> exists y, fp2 l = Some y.
+
+  Lemma transfer_all :
+    (forall t v, JValue F1 fp1 lone t v -> exists v', JValue F2 fp2 lone t v' /\ depth v' = depth v) /\
+    (forall b vs, JElems F1 fp1 lone b vs -> exists vs', JElems F2 fp2 lone b vs' /\ depth_list F2 vs' = depth_list F1 vs) /\
+    (forall b ms, JMembers F1 fp1 lone b ms -> exists ms', JMembers F2 fp2 lone b ms' /\ depth_members F2 ms' = depth_members F1 ms).
+  Proof.
+    apply JValue_mutind.
+    - exists VNull. split; [constructor|reflexivity].
+    - exists (VBool true). split; [constructor|reflexivity].
+    - exists (VBool false). split; [constructor|reflexivity].
+    - intros s x Hn Hf. destruct (accepts s x Hn Hf) as (y & Hy). exists (VNum y). split; [constructor; assumption|reflexivity].
+    - intros b o Hb. exists (VStr o). split; [constructor; exact Hb|reflexivity].
+    - intros w Hw. exists (VArr []). split; [constructor; exact Hw|reflexivity].
+    - intros b vs _ (vs' & H & Hd). exists (VArr vs'). split; [constructor; exact H|rewrite !depth_arr, Hd; reflexivity].
+    - intros w Hw. exists (VObj []). split; [constructor; exact Hw|reflexivity].
+    - intros b ms _ (ms' & H & Hd). exists (VObj ms'). split; [constructor; exact H|rewrite !depth_obj, Hd; reflexivity].
+    - intros w1 t v w2 Hw1 _ (v' & Hv & Hd) Hw2. exists [v']. split; [constructor; assumption|].
+      rewrite !depth_list_cons, Hd. reflexivity.
+    - intros w1 t v w2 b vs Hw1 _ (v' & Hv & Hd) Hw2 _ (vs' & Hvs & Hds). exists (v' :: vs').
+      split; [constructor; assumption|]. rewrite !depth_list_cons, Hd, Hds. reflexivity.
+    - intros w1 kb k w2 w3 t v w4 Hw1 Hk Hw2 Hw3 _ (v' & Hv & Hd) Hw4. exists [(k, v')].
+      split; [constructor; assumption|]. rewrite !depth_members_cons, Hd. reflexivity.
+    - intros w1 kb k w2 w3 t v w4 b ms Hw1 Hk Hw2 Hw3 _ (v' & Hv & Hd) Hw4 _ (ms' & Hms & Hds). exists ((k, v') :: ms').
+      split; [constructor; assumption|]. rewrite !depth_members_cons, Hd, Hds. reflexivity.
+  Qed.
+
+  Lemma transfer_text (s : str) (v : value F1) :
+    JTextG F1 fp1 lone s v -> exists v', JTextG F2 fp2 lone s v' /\ depth v' = depth v.
+  Proof.
+    intros (w1 & t & w2 & -> & H1 & Hv & H2). destruct (proj1 transfer_all t v Hv) as (v' & Hv' & Hd).
+    exists v'. split; [|exact Hd]. exists w1, t, w2. auto.
+  Qed.
+End Transfer.
+
+(* accepted  <->  pure RFC 8259 syntax (no oracle: F := unit) nested no deeper than MAX_DEPTH, without unpaired surrogate
+   escapes -- provided from_str accepts every literal of the RFC number grammar *)
+Theorem parse_accepts_iff_pure_syntax (F : Type) (fparse : str -> option F) :
+  (forall l, JNumber l -> exists x, fparse l = Some x) ->
+  forall s : str,
+    (exists v, parse fparse s = Ok v) <->
+    ((exists u, JTextG unit fp_unit true s u /\ depth u <= MAX_DEPTH) /\ no_lone_surrogate_escape s = true).
+Proof.
+  intros Htot s. rewrite parse_accepts_iff_rfc. split; intros [(v & Ht & Hd) Hs]; (split; [|exact Hs]).
+  - destruct (transfer_text F unit fparse fp_unit true (fun l x _ _ => ex_intro _ tt eq_refl) s v Ht) as (u & Hu & Hdu).
+    exists u. split; [exact Hu|rewrite Hdu; exact Hd].
+  - destruct (transfer_text unit F fp_unit fparse true (fun l x Hn _ => Htot l Hn) s v Ht) as (u & Hu & Hdu).
+    exists u. split; [exact Hu|rewrite Hdu; exact Hd].
+Qed.
